@@ -494,8 +494,12 @@ class HolisticGroupbyAggregation(GroupbyAggregationBase):
         return 1 if self.sort else super().split_out
 
     @classmethod
-    def aggregate(cls, inputs, **kwargs):
-        return _groupby_aggregate_spec(_concat(inputs), **kwargs)
+    def aggregate(cls, inputs, is_series=False, **kwargs):
+        df = _concat(inputs)
+        if is_series and is_dataframe_like(df):
+            # SeriesGroupBy: the (only) value column travels as a frame
+            df = df[df.columns[0]]
+        return _groupby_aggregate_spec(df, **kwargs)
 
     @property
     def chunk_kwargs(self) -> dict:  # type: ignore[override]
@@ -511,6 +515,8 @@ class HolisticGroupbyAggregation(GroupbyAggregationBase):
         return {
             "spec": self.arg,
             "levels": _determine_levels(self.by),
+            "is_series": self.frame.ndim == 1
+            or (self._slice is not None and is_scalar(self._slice)),
             **_as_dict("observed", self.observed),
             **_as_dict("dropna", self.dropna),
         }
